@@ -40,7 +40,7 @@ def fromBE (bs : Bytes) : Nat := bs.foldl (fun acc b => acc * 256 + b.toNat) 0
 
 /-- minimal big-endian encoding (Go `big.Int.Bytes`) : no leading zero bytes, `0 ↦ []` -/
 def natBytes (n : Nat) : Bytes :=
-  if h : n = 0 then [] else natBytes (n / 256) ++ [UInt8.ofNat (n % 256)]
+  if _h : n = 0 then [] else natBytes (n / 256) ++ [UInt8.ofNat (n % 256)]
 decreasing_by omega
 
 /-- two's complement of an `Int` in 256 bits, as go-ethereum `math.U256Bytes` computes it
@@ -90,15 +90,12 @@ def parseBigInt (bs : Bytes) : Option Int :=
   | 45 :: rest => (parseDec rest).map (fun n => - Int.ofNat n)  -- '-'
   | _ => (parseDec bs).map Int.ofNat
 
-/-- digits of `n`, most significant first, for `n > 0` (helper) -/
-def showDecAux : Nat → Nat → Bytes → Bytes
-  | 0, _, acc => acc
-  | fuel+1, n, acc =>
-    if n < 10 then UInt8.ofNat (48 + n) :: acc
-    else showDecAux fuel (n / 10) (UInt8.ofNat (48 + n % 10) :: acc)
+def digitChar (k : Nat) : UInt8 := UInt8.ofNat (48 + k)
 
 /-- canonical decimal rendering (Go `strconv.FormatUint`, `big.Int.String` for n ≥ 0) -/
-def showDec (n : Nat) : Bytes := showDecAux (n + 1) n []
+def showDec (n : Nat) : Bytes :=
+  if n < 10 then [digitChar n] else showDec (n / 10) ++ [digitChar (n % 10)]
+decreasing_by omega
 
 def strBytes (s : String) : Bytes := s.toUTF8.toList
 
